@@ -52,8 +52,9 @@ def make_objs(rng, n):
         chrom = rng.choice(chroms)
         start = rng.choice([1, 2, 9, 10, 11, 100, 1000])
         end = start + rng.choice([0, 0, 1, 5, 90])
-        tumor = rng.choice(["T1", "T2", "TA"])
-        normal = rng.choice(["N1", "N2", None, None])
+        tumor = rng.choice(["T1", "T2", "TA", "Zz-9"])
+        # (names on both sides of the text 'None' and of the empty text: a missing barcode is last, not a name)
+        normal = rng.choice(["N1", "N2", "TCGA-11", "b-12", None, None])
         if kind == "typed":
             objs.append(("typed", SC.typed_record(rng, tumor, normal, chrom, start, end)))
         elif kind == "untyped":
@@ -63,6 +64,17 @@ def make_objs(rng, n):
             s = rng.choice([start, start, None])
             e = rng.choice([end, end, None]) if s is not None else None
             objs.append(("loc", SC.Loc(c, s, e)))
+    # ties on the leading components with one later component missing: a missing value is last, whatever precedes it
+    for _ in range(max(2, n // 8)):
+        chrom = rng.choice(chroms)
+        start = rng.choice([1, 9, 10, 100])
+        objs.append(("loc", SC.Loc(chrom, start, None)))
+        objs.append(("loc", SC.Loc(chrom, start, start)))
+        objs.append(("loc", SC.Loc(chrom, start, start + rng.choice([1, 5, 90]))))
+        objs.append(("loc", SC.Loc(chrom, None, None)))
+        tumor = rng.choice(["T1", "TA"])
+        for normal in (None, "N1", "TCGA-11", "b-12"):
+            objs.append(("typed", SC.typed_record(rng, tumor, normal, chrom, start, start + 1)))
     return objs
 
 
@@ -292,7 +304,9 @@ def run(ctx):
     reqs, meta = [], []
     pairs = [(a, b) for a in objs for b in objs]
     rng.shuffle(pairs)
-    pairs = pairs[:ctx.scale(900, 9000)]
+    # pairs that tie on the leading components always run (they are what a "missing value is last" slip needs)
+    ties = [(a, b) for (a, b) in pairs if a is not b and SC.loc_json(a[1])["chr"] == SC.loc_json(b[1])["chr"] and SC.loc_json(a[1])["start"] == SC.loc_json(b[1])["start"]]
+    pairs = ties[:ctx.scale(400, 4000)] + pairs[:ctx.scale(900, 9000)]
     for (ka, a), (kb, b) in pairs:
         for order in ("Coordinate", "BarcodesAndCoordinate"):
             if order == "BarcodesAndCoordinate" and "loc" in (ka, kb):
